@@ -48,7 +48,7 @@ fn q_sel(d: Dialect, s: &mut SelectStatement) -> String {
     s.build_collect_any(qb(d), &mut out)
 }
 
-pub const POSITIONS: [&str; 64] = [
+pub const POSITIONS: [&str; 65] = [
     "select.from.table",
     "select.from.schema_of_schema.table",
     "select.from.table_of_schema.table",
@@ -113,6 +113,7 @@ pub const POSITIONS: [&str; 64] = [
     "pg.as_enum_array_type",
     "func.cast_as_quoted_type",
     "table.alter.modify_column",
+    "table.alter.second_modify_column",
 ];
 
 /// Render with identifier `v` in position `p`. None = not applicable for this backend.
@@ -386,6 +387,17 @@ fn render(p: &str, d: Dialect, v: &str) -> Option<String> {
             let mut c = ColumnDef::new(a(v));
             c.integer().not_null().default(1).unique_key();
             Table::alter().table(a("t")).modify_column(c).build_any(s)
+        }
+        "table.alter.second_modify_column" => {
+            if lite {
+                return None;
+            }
+            // the second of two modified columns (each option names its own column, nothing of the first)
+            let mut first = ColumnDef::new(a("first_col"));
+            first.integer().not_null();
+            let mut c = ColumnDef::new(a(v));
+            c.integer().null().default(2);
+            Table::alter().table(a("t")).modify_column(first).drop_column(a("gone")).modify_column(c).build_any(s)
         }
         _ => unreachable!("unknown position {p}"),
     })
